@@ -5,7 +5,7 @@ CONSTANTS
   DimGiven = {TRUE, FALSE}
   Srcs = {0, 1, 2, 99}
   Noises = {"default", "scalar", "diag"}
-  Feats = {"named", "default", "int_labels"}
+  Feats = {"named", "default", "int_labels", "odd_names"}
   INames = {"kind", "custom"}
   Origins = {"fit", "fit_mem2", "fit_mem3", "hand", "edited", "refit"}
   NameIsKindOK = TRUE
